@@ -473,8 +473,8 @@ package csrf
 //@     invariant wildcard-prefix-lower: forall(k, 0, len(trustedSubOrigins), trustedSubOrigins[k].prefix == lower(trustedSubOrigins[k].prefix))
 //@     invariant wildcard-suffix-lower: forall(k, 0, len(trustedSubOrigins), trustedSubOrigins[k].suffix == lower(trustedSubOrigins[k].suffix))
 //@     invariant wildcard-entries-shaped: wildShaped()
-//@     invariant every-exact-entry-listed: forall(j, 0, rangeindex + 1, exactListed(cfg.TrustedOrigins[j]))
 //@     invariant every-wildcard-entry-listed: forall(j, 0, rangeindex + 1, wildListed(cfg.TrustedOrigins[j]))
+//@     invariant every-exact-entry-listed: forall(j, 0, rangeindex + 1, exactListed(cfg.TrustedOrigins[j]))
 // (first: it equates the list as read at the return with the list the loop invariants speak of - one ground equation
 // instead of select/store reasoning over the seventeen field heaps of the configuration copy - so that the index
 // patterns of the clauses below match the witnesses the invariants hand over)
